@@ -2,6 +2,7 @@ package checks
 
 import (
 	"fmt"
+	"github.com/remieven/ysgo/variable"
 	"time"
 
 	"github.com/remieven/ysgo/verifx/internal/explore"
@@ -59,7 +60,9 @@ var exprHost = &yc.HostSpec{
 
 func exprCase(ctx *report.Ctx, c *explore.Chooser, partName string, e *yc.Expr, lay *yc.Layout) {
 	p := &yc.Program{Nodes: []*yc.Node{{Title: "A", Body: []*yc.Stmt{yc.Call("cap", e), yc.Line("end")}}}}
-	wo := yc.WalkOpts{MaxSteps: 3, CompareLog: true, StrictErrors: true}
+	// the host's storer hands out the very boxed values it keeps (legal: evaluation has no business writing through
+	// what GetValue returns); the store is compared after the evaluation
+	wo := yc.WalkOpts{MaxSteps: 3, CompareLog: true, CompareStore: true, StrictErrors: true, NewStorer: func() variable.Storer { return newBoxStorer() }}
 	srcs := yc.Render(p, lay)
 	ctx.Current(partName + ": " + srcs[0])
 	mm, st := yc.Walk(p, srcs, exprHost, wo)
@@ -190,7 +193,7 @@ func runC02(ctx *report.Ctx) {
 		p := &yc.Program{Nodes: []*yc.Node{{Title: "A", Body: []*yc.Stmt{yc.Call("cap", e), yc.Line("again"), yc.Jump("A")}}}}
 		srcs := yc.Render(p, nil)
 		ctx.Current("G1-again: " + srcs[0])
-		mm, st := yc.Walk(p, srcs, exprHost, yc.WalkOpts{MaxSteps: 6, MaxJumps: 2, CompareLog: true, StrictErrors: true})
+		mm, st := yc.Walk(p, srcs, exprHost, yc.WalkOpts{MaxSteps: 6, MaxJumps: 2, CompareLog: true, CompareStore: true, StrictErrors: true, NewStorer: func() variable.Storer { return newBoxStorer() }})
 		ctx.AddEvals(1, 1)
 		ctx.AddStates(1)
 		ctx.AddTransitions(st.Steps)
@@ -250,7 +253,7 @@ func runC02(ctx *report.Ctx) {
 			yc.Line("again"), yc.Jump("A")}}}}
 		srcs := yc.Render(p, nil)
 		ctx.Current("G2-again: " + srcs[0])
-		mm, st := yc.Walk(p, srcs, exprHost, yc.WalkOpts{MaxSteps: 6, MaxJumps: 2, CompareLog: true, StrictErrors: true})
+		mm, st := yc.Walk(p, srcs, exprHost, yc.WalkOpts{MaxSteps: 6, MaxJumps: 2, CompareLog: true, CompareStore: true, StrictErrors: true, NewStorer: func() variable.Storer { return newBoxStorer() }})
 		ctx.AddEvals(1, 1)
 		ctx.AddStates(1)
 		ctx.AddTransitions(st.Steps)
